@@ -42,6 +42,7 @@ class Ctx:
         self.obligations = []     # list of (theorem, axioms)
         self.proof_broken = []    # names of obligations that no longer check
         self.infos = []
+        self.known_entries = []   # known_findings.json entries (status known) of this property
 
     # --- recording -------------------------------------------------------
     def count(self, branch, n=1):
@@ -63,6 +64,10 @@ class Ctx:
     def fail(self, what, case, detail=None, match=None):
         """a concrete input on which the property itself fails on the implementation"""
         self.failing.append({'what': what, 'case': case, 'detail': detail, 'match': match or {}})
+
+    def is_known(self, match):
+        """does a failing input with this match dict correspond to a listed known finding?"""
+        return any(match_finding({'match': match}, k) for k in self.known_entries)
 
     def quick(self):
         return self.tier != 'thorough'
@@ -282,6 +287,7 @@ def run(ctx, replay):
         if rc != 0:
             ctx.proof_broken.append('leanchecker rejected NflowsModel.Properties.%s: %s' % (prop, lout[-500:]))
 
+    ctx.known_entries = [f for f in load_findings() if f.get('property') == prop and f.get('status') == 'known']
     # 3. correspondence (corpus first, then generated cases)
     try:
         if hasattr(mod, 'setup'):
